@@ -244,6 +244,26 @@ func (d *NCDevice) handle(msg string) string {
 	return ok
 }
 
+// SetGetConfigDoc sets the <data> content the device answers get-config with.
+func (d *NCDevice) SetGetConfigDoc(doc string) {
+	d.mu.Lock()
+	defer d.mu.Unlock()
+	d.GetConfigDoc = doc
+}
+
+// NumGetConfigs counts the get-config rpcs received.
+func (d *NCDevice) NumGetConfigs() int {
+	d.mu.Lock()
+	defer d.mu.Unlock()
+	n := 0
+	for _, r := range d.Rpcs {
+		if r.Op == "get-config" {
+			n++
+		}
+	}
+	return n
+}
+
 // Mark returns the number of rpcs received so far.
 func (d *NCDevice) Mark() int {
 	d.mu.Lock()
